@@ -154,7 +154,11 @@ def run(prog, chk):
             ntok += 1
             chk.ob('R15.4', f, t.ln, not may_nl, 'makeToken (end-minus-length column) is used in %s, which %s' % (f.short, 'can consume a newline' if may_nl else 'consumes no newline'),
                    key='formula-use:%s' % f.short, nontrivial=may_nl)
-            ntok += _text_rule(prog, chk, L, g, f, t, SX.real_args(t.e)[1], fns, st) or 0
+            extra = _text_rule(prog, chk, L, g, f, t, SX.real_args(t.e)[1], fns, st)
+            if extra is None:
+                # one site standing for every row of a constant table through its token kind (`makeToken(op.type, <text>)`)
+                extra = max(0, len(_table_rows(prog, f, SX.real_args(t.e)[0]) or []) - 1)
+            ntok += extra
         for a in aggs:
             ntok += 1
             items = SX.strip(a.e['e']).get('items') or SX.real_args(SX.strip(a.e['e']))
@@ -219,6 +223,33 @@ def _edge_fact(L, g, edge):
                 if op == '!=' and b['v'] == NL:
                     return 'NN'
     return None
+
+
+def _case_fact(L, g, n):
+    """`switch (peek()) { case 'c': …` — the label, when entered from the switch itself (not by falling through from statements
+    of an earlier case), is the same evidence as the comparison `peek() == 'c'`; stacked labels must all agree"""
+    if n.label in (None, 'default') or not n.pred or not all(p.kind in ('switch', 'case') for p in n.pred):
+        return None
+    labels, cur, sw, hops = [n], n, [p for p in n.pred if p.kind == 'switch'], 0
+    while hops < 40:
+        nxt = [p for p in cur.pred if p.kind == 'case']
+        if not nxt:
+            break
+        cur = nxt[0]
+        if not all(p.kind in ('switch', 'case') for p in cur.pred):
+            return None
+        labels.append(cur)
+        sw = sw or [p for p in cur.pred if p.kind == 'switch']
+        hops += 1
+    if not sw or not (SX.is_node(sw[0].e) and SX.is_node(sw[0].e.get('c'))) or not _cur_char(L, sw[0].e['c'], g, sw[0]):
+        return None
+    out = set()
+    for c in labels:
+        v = SX.strip(c.e.get('v')) if SX.is_node(c.e) else None
+        if not (SX.is_node(v) and v.get('k') == 'char'):
+            return None
+        out.add('NL' if v['v'] == NL else 'NN')
+    return out.pop() if len(out) == 1 else None
 
 
 def _next_fact(L, edge):
@@ -286,6 +317,10 @@ def _char_facts(L, g, sites):
                 f2 = _next_fact(L, n)
                 if f2:
                     nout = f2
+            if n.kind == 'case':
+                f = _case_fact(L, g, n)
+                if f:
+                    out = f
             if n.id in siteids or (n.kind == 'call' and L.callee_of(n.e) is not None and L.callee_of(n.e).key in L.moves):
                 t = L.callee_of(n.e)
                 # a single-step consumption makes the (known) next character the current one
